@@ -1,346 +1,14 @@
 /-
 C03 — Frustum clipping returns exactly the inside part, attributes intact.
-
-Theorems are over an arbitrary linearly ordered field K (so for ℚ and ℝ alike) and about the
-very functions the driver runs (`Retro.Clip.clipTri`, `clipTris`).
-
-Proved here (Tier A of DESIGN.md):
-  * `clip_inside`      every output vertex satisfies all six frustum inequalities
-  * `clip_bary`        every output vertex is a convex combination of the input triangle's
-                       vertices, and its attribute is the same combination of the input
-                       attributes (lies in the triangle, carries the linear field's value there)
-  * `clip_visible_id`  a triangle wholly inside is emitted unchanged
-  * `clip_hidden_nil`  a triangle wholly outside one plane produces nothing
-  * `clip_append`      batching independence
-  * `clip_wf`          outputs carry consistent stored outcodes (re-clipping is meaningful)
-Not proved (full statement kept visible): exact coverage / non-overlap / winding of the
-six-plane composition (`clip_covers`, `clip_winding`); the spec oracle `Retro.Spec.ClipArea`
-checks them on every correspondence case instead. Float rounding is outside these theorems.
+  `Retro.Props.C03.Base`   : `clip_inside`, `clip_bary`, `clip_visible_id`, `clip_hidden_nil`, `clip_append`, `clip_wf`
+  `Retro.Props.C03.Cover*` : the six-plane composition in the input triangle's barycentric plane (prover sub-agent):
+      `clip_winding` / `clip_polygon_conv`  every output triangle keeps the input's winding (or is degenerate); the
+                                            clipped polygon is weakly convex, counter-clockwise
+      `clip_output_subset_visible`          every point of every output triangle is in the visible part
+      `clip_nonoverlap`                     two different output triangles share no interior point
+      `clip_covers`                         no inside point is lost — when the visible part has non-empty interior;
+                                            `CoverEx` proves the statement FALSE without that hypothesis (a triangle
+                                            touching the frustum from outside at one vertex yields nothing)
 -/
-import Retro.Lemmas.Clip
-
-namespace Retro.Props.C03
-open Retro Retro.Clip Retro.Lemmas.Clip
-
-variable {K : Type} [Field K] [LinearOrder K] [IsStrictOrderedRing K]
-
-/-- Inside the view frustum: all six signed distances are non-positive (−w ≤ x,y,z ≤ w). -/
-def Inside (v : Vec4 K) : Prop := ∀ p ∈ (planes : List (Plane K)), signedDist p v ≤ 0
-
-def triVerts (t : Tri K) : List (ClipVert K) := [t.a, t.b, t.c]
-
-/-- All three vertices were built by `ClipVert::new`. -/
-def TriWF (t : Tri K) : Prop := WF t.a ∧ WF t.b ∧ WF t.c
-
-/-- `Inside` spelled out: −w ≤ x, y, z ≤ w. -/
-theorem inside_iff (v : Vec4 K) :
-    Inside v ↔ (-v.w ≤ v.z ∧ v.z ≤ v.w ∧ -v.w ≤ v.x ∧ v.x ≤ v.w ∧ -v.w ≤ v.y ∧ v.y ≤ v.w) := by
-  unfold Inside
-  rw [planes_eq]
-  simp only [List.mem_cons, List.mem_nil_iff, or_false, forall_eq_or_imp, forall_eq,
-    signedDist, dot4, P0, P1, P2, P3, P4, P5]
-  constructor
-  · rintro ⟨h0, h1, h2, h3, h4, h5⟩
-    refine ⟨?_, ?_, ?_, ?_, ?_, ?_⟩ <;> linarith
-  · rintro ⟨h0, h1, h2, h3, h4, h5⟩
-    refine ⟨?_, ?_, ?_, ?_, ?_, ?_⟩ <;> linarith
-
-/-! ### Invariant of the plane loop -/
-
-theorem clipAll_inv (ps : List (Plane K)) :
-    ∀ (done : List (Plane K)) (vs : List (ClipVert K)),
-      (∀ p ∈ ps, p ∈ (planes : List (Plane K))) →
-      (∀ v ∈ vs, WF v ∧ ∀ q ∈ done, signedDist q v.pos ≤ 0) →
-      ∀ u ∈ clipAll ps vs, WF u ∧ ∀ q ∈ done ++ ps, signedDist q u.pos ≤ 0 := by
-  induction ps with
-  | nil => intro done vs _ hvs u hu; simpa [clipAll] using hvs u hu
-  | cons p ps ih =>
-    intro done vs hsub hvs u hu
-    have hp : p ∈ (planes : List (Plane K)) := hsub p (by simp)
-    have hstep : ∀ v ∈ clipPlane p vs, WF v ∧ ∀ q ∈ done ++ [p], signedDist q v.pos ≤ 0 := by
-      intro v hv
-      have hQ := clipPlane_preserves (fun v => WF v ∧ ∀ q ∈ done, signedDist q v.pos ≤ 0) p
-        (fun v0 v1 h0 h1 hc => ⟨mkVert_wf _ _, fun q hq => crossing_inside p q v0 v1 (h0.2 q hq) (h1.2 q hq) hc⟩)
-        vs hvs v hv
-      refine ⟨hQ.1, fun q hq => ?_⟩
-      rcases List.mem_append.mp hq with hq | hq
-      · exact hQ.2 q hq
-      · have : q = p := by simpa using hq
-        subst this
-        exact clipPlane_inside q hp vs (fun v hv => (hvs v hv).1) v hv
-    have := ih (done ++ [p]) (clipPlane p vs) (fun q hq => hsub q (by simp [hq])) hstep u
-      (by simpa [clipAll] using hu)
-    simpa [List.append_assoc] using this
-
-theorem mem_fan (a : ClipVert K) (rest : List (ClipVert K)) (t : Tri K) (h : t ∈ fan a rest) :
-    t.a = a ∧ t.b ∈ rest ∧ t.c ∈ rest := by
-  induction rest with
-  | nil => simp [fan] at h
-  | cons e0 rest ih =>
-    cases rest with
-    | nil => simp [fan] at h
-    | cons e1 rest' =>
-      simp only [fan, List.mem_cons] at h
-      rcases h with rfl | h
-      · simp
-      · obtain ⟨h1, h2, h3⟩ := ih (by simpa [List.mem_cons] using h)
-        exact ⟨h1, List.mem_cons_of_mem _ h2, List.mem_cons_of_mem _ h3⟩
-
-/-- Every vertex of every output triangle is an input vertex (visible case) or a vertex of the
-clipped polygon. -/
-theorem clipTri_verts (t : Tri K) (tri : Tri K) (h : tri ∈ clipTri t) (v : ClipVert K)
-    (hv : v ∈ triVerts tri) :
-    (status (triVerts t) = .visible ∧ v ∈ triVerts t) ∨
-    (v ∈ clipAll planes (triVerts t)) := by
-  unfold clipTri at h
-  cases hs : status [t.a, t.b, t.c] with
-  | visible =>
-    simp only [hs, List.mem_singleton] at h
-    subst h
-    exact Or.inl ⟨hs, hv⟩
-  | hidden => simp [hs] at h
-  | clipped =>
-    simp only [hs] at h
-    right
-    have hpoly : clipPolygon planes [t.a, t.b, t.c] = clipAll planes (triVerts t) := by
-      rw [clipPolygon_eq, planes_eq]; simp [triVerts]
-    cases hc : clipPolygon (planes : List (Plane K)) [t.a, t.b, t.c] with
-    | nil => simp [hc] at h
-    | cons a rest =>
-      simp only [hc] at h
-      obtain ⟨h1, h2, h3⟩ := mem_fan a rest tri h
-      rw [← hpoly, hc]
-      simp only [triVerts, List.mem_cons, List.mem_nil_iff, or_false] at hv
-      rcases hv with rfl | rfl | rfl
-      · simp [h1]
-      · exact List.mem_cons_of_mem _ h2
-      · exact List.mem_cons_of_mem _ h3
-
-theorem status_visible_iff (vs : List (ClipVert K)) :
-    status vs = .visible → ∀ v ∈ vs, v.oc = 0 := by
-  intro h v hv
-  unfold status at h
-  simp only at h
-  split at h
-  · cases h
-  · split at h
-    · rename_i _ hany
-      have hany : List.foldl (fun a v => a ||| v.oc) 0 vs = 0 := by simpa using hany
-      have key : ∀ (l : List (ClipVert K)) (acc : Nat), List.foldl (fun a v => a ||| v.oc) acc l = 0 →
-          acc = 0 ∧ ∀ v ∈ l, v.oc = 0 := by
-        intro l
-        induction l with
-        | nil => intro acc h; exact ⟨by simpa using h, by simp⟩
-        | cons x xs ih =>
-          intro acc h
-          simp only [List.foldl_cons] at h
-          obtain ⟨h1, h2⟩ := ih _ h
-          have := Nat.or_eq_zero_iff.mp h1
-          exact ⟨this.1, by intro v hv; rcases List.mem_cons.mp hv with rfl | hv; exact this.2; exact h2 v hv⟩
-      exact (key vs 0 hany).2 v hv
-    · cases h
-
-/-- **No output point is outside.** Every vertex of every output triangle satisfies all six
-frustum inequalities. -/
-theorem clip_inside (t : Tri K) (hwf : TriWF t) :
-    ∀ tri ∈ clipTri t, ∀ v ∈ triVerts tri, Inside v.pos := by
-  intro tri htri v hv
-  have hall : ∀ v ∈ triVerts t, WF v := by
-    intro v hv
-    simp only [triVerts, List.mem_cons, List.mem_nil_iff, or_false] at hv
-    rcases hv with rfl | rfl | rfl
-    · exact hwf.1
-    · exact hwf.2.1
-    · exact hwf.2.2
-  rcases clipTri_verts t tri htri v hv with ⟨hs, hmem⟩ | hmem
-  · exact (wf_oc_zero_iff v (hall v hmem)).mp (status_visible_iff _ hs v hmem)
-  · have := clipAll_inv (planes : List (Plane K)) [] (triVerts t) (fun p hp => hp)
-      (fun v hv => ⟨hall v hv, by simp⟩) v hmem
-    simpa [Inside] using this.2
-
-/-- Outputs are well-formed clip vertices again. -/
-theorem clip_wf (t : Tri K) (hwf : TriWF t) :
-    ∀ tri ∈ clipTri t, ∀ v ∈ triVerts tri, WF v := by
-  intro tri htri v hv
-  have hall : ∀ v ∈ triVerts t, WF v := by
-    intro v hv
-    simp only [triVerts, List.mem_cons, List.mem_nil_iff, or_false] at hv
-    rcases hv with rfl | rfl | rfl
-    · exact hwf.1
-    · exact hwf.2.1
-    · exact hwf.2.2
-  rcases clipTri_verts t tri htri v hv with ⟨_, hmem⟩ | hmem
-  · exact hall v hmem
-  · exact (clipAll_inv (planes : List (Plane K)) [] (triVerts t) (fun p hp => hp)
-      (fun v hv => ⟨hall v hv, by simp⟩) v hmem).1
-
-/-- **Independence of batching**: the result for a list is the concatenation of the results for
-its parts, so it does not depend on what else is clipped in the same call. -/
-theorem clip_append (s t : List (Tri K)) : clipTris (s ++ t) = clipTris s ++ clipTris t := by
-  simp [clipTris, List.flatMap_append]
-
-
-/-! ### Trivial accept / reject, stated geometrically -/
-
-/-- **A triangle wholly inside is emitted unchanged.** -/
-theorem clip_visible_id (t : Tri K) (hwf : TriWF t) (hin : ∀ v ∈ triVerts t, Inside v.pos) :
-    clipTri t = [t] := by
-  have ha : t.a.oc = 0 := (wf_oc_zero_iff _ hwf.1).mpr (hin _ (by simp [triVerts]))
-  have hb : t.b.oc = 0 := (wf_oc_zero_iff _ hwf.2.1).mpr (hin _ (by simp [triVerts]))
-  have hc : t.c.oc = 0 := (wf_oc_zero_iff _ hwf.2.2).mpr (hin _ (by simp [triVerts]))
-  simp [clipTri, status, ha, hb, hc]
-
-theorem ocOf_testBit (d0 d1 d2 d3 d4 d5 : K) :
-    (ocOf d0 d1 d2 d3 d4 d5).testBit 0 = decide (0 < d0) ∧
-    (ocOf d0 d1 d2 d3 d4 d5).testBit 1 = decide (0 < d1) ∧
-    (ocOf d0 d1 d2 d3 d4 d5).testBit 2 = decide (0 < d2) ∧
-    (ocOf d0 d1 d2 d3 d4 d5).testBit 3 = decide (0 < d3) ∧
-    (ocOf d0 d1 d2 d3 d4 d5).testBit 4 = decide (0 < d4) ∧
-    (ocOf d0 d1 d2 d3 d4 d5).testBit 5 = decide (0 < d5) := by
-  unfold ocOf
-  by_cases h0 : 0 < d0 <;> by_cases h1 : 0 < d1 <;> by_cases h2 : 0 < d2 <;>
-  by_cases h3 : 0 < d3 <;> by_cases h4 : 0 < d4 <;> by_cases h5 : 0 < d5 <;>
-  simp only [h0, h1, h2, h3, h4, h5, if_true, if_false, decide_true, decide_false] <;> decide
-
-/-- bit index of each frustum plane in the outcode -/
-theorem wf_testBit (p : Plane K) (hp : p ∈ (planes : List (Plane K))) (v : ClipVert K) (hwf : WF v)
-    (hout : 0 < signedDist p v.pos) : ∃ k, k < 6 ∧ p.bit = 2 ^ k ∧ v.oc.testBit k = true := by
-  obtain ⟨h0, h1, h2, h3, h4, h5⟩ := ocOf_testBit (signedDist P0 v.pos) (signedDist P1 v.pos)
-    (signedDist P2 v.pos) (signedDist P3 v.pos) (signedDist P4 v.pos) (signedDist P5 v.pos)
-  rw [hwf, outcode_eq]
-  rcases mem_planes p hp with rfl | rfl | rfl | rfl | rfl | rfl
-  · exact ⟨0, by omega, rfl, by rw [h0]; exact decide_eq_true hout⟩
-  · exact ⟨1, by omega, rfl, by rw [h1]; exact decide_eq_true hout⟩
-  · exact ⟨2, by omega, rfl, by rw [h2]; exact decide_eq_true hout⟩
-  · exact ⟨3, by omega, rfl, by rw [h3]; exact decide_eq_true hout⟩
-  · exact ⟨4, by omega, rfl, by rw [h4]; exact decide_eq_true hout⟩
-  · exact ⟨5, by omega, rfl, by rw [h5]; exact decide_eq_true hout⟩
-
-/-- **A triangle wholly outside one plane produces nothing.** -/
-theorem clip_hidden_nil (t : Tri K) (hwf : TriWF t) (p : Plane K) (hp : p ∈ (planes : List (Plane K)))
-    (hout : ∀ v ∈ triVerts t, 0 < signedDist p v.pos) : clipTri t = [] := by
-  obtain ⟨ka, hka, hba, hta⟩ := wf_testBit p hp t.a hwf.1 (hout _ (by simp [triVerts]))
-  obtain ⟨kb, _, hbb, htb⟩ := wf_testBit p hp t.b hwf.2.1 (hout _ (by simp [triVerts]))
-  obtain ⟨kc, _, hbc, htc⟩ := wf_testBit p hp t.c hwf.2.2 (hout _ (by simp [triVerts]))
-  have e1 : kb = ka := Nat.pow_right_injective (le_refl 2) (show 2 ^ kb = 2 ^ ka by rw [← hbb, ← hba])
-  have e2 : kc = ka := Nat.pow_right_injective (le_refl 2) (show 2 ^ kc = 2 ^ ka by rw [← hbc, ← hba])
-  subst e1 e2
-  have h255 : (255 : Nat).testBit kc = true := by
-    have : kc = 0 ∨ kc = 1 ∨ kc = 2 ∨ kc = 3 ∨ kc = 4 ∨ kc = 5 := by omega
-    rcases this with rfl | rfl | rfl | rfl | rfl | rfl <;> decide
-  have hall : (((255 &&& t.a.oc) &&& t.b.oc) &&& t.c.oc) ≠ 0 := by
-    intro h0
-    have : (((255 &&& t.a.oc) &&& t.b.oc) &&& t.c.oc).testBit kc = true := by
-      simp [Nat.testBit_and, h255, hta, htb, htc]
-    rw [h0] at this
-    simp at this
-  simp [clipTri, status, hall]
-
-/-! ### Outputs lie in the input triangle and carry its linear attribute field -/
-
-/-- a·P + b·Q + c·R on positions -/
-def comb4 (a b c : K) (P Q R : Vec4 K) : Vec4 K :=
-  ⟨a * P.x + b * Q.x + c * R.x, a * P.y + b * Q.y + c * R.y,
-   a * P.z + b * Q.z + c * R.z, a * P.w + b * Q.w + c * R.w⟩
-
-/-- a·A + b·B + c·C on attribute component lists -/
-def combL (a b c : K) : List K → List K → List K → List K
-  | x :: xs, y :: ys, z :: zs => (a * x + b * y + c * z) :: combL a b c xs ys zs
-  | _, _, _ => []
-
-/-- `v` is the point of triangle `t` with barycentric coordinates (a,b,c), position and attribute alike. -/
-def BaryOf (t : Tri K) (v : ClipVert K) : Prop :=
-  ∃ a b c : K, 0 ≤ a ∧ 0 ≤ b ∧ 0 ≤ c ∧ a + b + c = 1 ∧
-    v.pos = comb4 a b c t.a.pos t.b.pos t.c.pos ∧
-    v.attr = combL a b c t.a.attr t.b.attr t.c.attr
-
-theorem lerpL_combL (a b c a' b' c' s : K) (A B C : List K) :
-    lerpL (combL a b c A B C) (combL a' b' c' A B C) s =
-      combL (lerp a a' s) (lerp b b' s) (lerp c c' s) A B C := by
-  induction A generalizing B C with
-  | nil => simp [combL, lerpL]
-  | cons x xs ih =>
-    cases B with
-    | nil => simp [combL, lerpL]
-    | cons y ys =>
-      cases C with
-      | nil => simp [combL, lerpL]
-      | cons z zs =>
-        simp only [combL, lerpL, ih]
-        congr 1
-        simp only [lerp]; ring
-
-theorem combL_one (A B C : List K) (h1 : A.length = B.length) (h2 : B.length = C.length) :
-    combL 1 0 0 A B C = A ∧ combL 0 1 0 A B C = B ∧ combL 0 0 1 A B C = C := by
-  induction A generalizing B C with
-  | nil =>
-    cases B <;> cases C <;> simp_all [combL]
-  | cons x xs ih =>
-    cases B with
-    | nil => simp at h1
-    | cons y ys =>
-      cases C with
-      | nil => simp at h2
-      | cons z zs =>
-        obtain ⟨i1, i2, i3⟩ := ih ys zs (by simpa using h1) (by simpa using h2)
-        simp [combL, i1, i2, i3]
-
-theorem baryOf_crossing (t : Tri K) (p : Plane K) (v0 v1 : ClipVert K) (h0 : BaryOf t v0) (h1 : BaryOf t v1)
-    (hc : signedDist p v0.pos * signedDist p v1.pos < 0) : BaryOf t (crossing p v0 v1) := by
-  obtain ⟨a, b, c, ha, hb, hcc, hs, hp0, hA0⟩ := h0
-  obtain ⟨a', b', c', ha', hb', hcc', hs', hp1, hA1⟩ := h1
-  obtain ⟨ht0, ht1⟩ := crossT_mem _ _ hc
-  set s := -signedDist p v0.pos / (signedDist p v1.pos - signedDist p v0.pos) with hsdef
-  have hconv : ∀ x y : K, 0 ≤ x → 0 ≤ y → 0 ≤ lerp x y s := by
-    intro x y hx hy
-    unfold lerp
-    nlinarith [mul_nonneg ht0.le hy, mul_nonneg (sub_nonneg.mpr ht1.le) hx]
-  refine ⟨lerp a a' s, lerp b b' s, lerp c c' s, hconv _ _ ha ha', hconv _ _ hb hb', hconv _ _ hcc hcc', ?_, ?_, ?_⟩
-  · simp only [lerp]
-    have e : a + (a' - a) * s + (b + (b' - b) * s) + (c + (c' - c) * s) =
-        (a + b + c) + ((a' + b' + c') - (a + b + c)) * s := by ring
-    rw [e, hs, hs']; ring
-  · simp only [crossing, mkVert, ← hsdef]
-    rw [hp0, hp1]
-    simp only [lerpPos, comb4, lerp, Vec4.mk.injEq]
-    refine ⟨?_, ?_, ?_, ?_⟩ <;> ring
-  · simp only [crossing, mkVert, ← hsdef]
-    rw [hA0, hA1, lerpL_combL]
-
-/-- **Outputs lie in the input and keep its attribute field.** Every vertex of every output
-triangle is a convex combination of the input triangle's three vertices, and its attribute is the
-same combination of the input's attributes — i.e. the value of the input triangle's linear attribute
-field at the output vertex's own position. -/
-theorem clip_bary (t : Tri K) (hlen : t.a.attr.length = t.b.attr.length ∧ t.b.attr.length = t.c.attr.length) :
-    ∀ tri ∈ clipTri t, ∀ v ∈ triVerts tri, BaryOf t v := by
-  intro tri htri v hv
-  obtain ⟨c1, c2, c3⟩ := combL_one t.a.attr t.b.attr t.c.attr hlen.1 hlen.2
-  have hbase : ∀ v ∈ triVerts t, BaryOf t v := by
-    intro v hv
-    simp only [triVerts, List.mem_cons, List.mem_nil_iff, or_false] at hv
-    rcases hv with rfl | rfl | rfl
-    · exact ⟨1, 0, 0, by norm_num, by norm_num, by norm_num, by norm_num, by simp [comb4], c1.symm⟩
-    · exact ⟨0, 1, 0, by norm_num, by norm_num, by norm_num, by norm_num, by simp [comb4], c2.symm⟩
-    · exact ⟨0, 0, 1, by norm_num, by norm_num, by norm_num, by norm_num, by simp [comb4], c3.symm⟩
-  rcases clipTri_verts t tri htri v hv with ⟨_, hmem⟩ | hmem
-  · exact hbase v hmem
-  · have key : ∀ (ps : List (Plane K)) (vs : List (ClipVert K)), (∀ v ∈ vs, BaryOf t v) →
-        ∀ u ∈ clipAll ps vs, BaryOf t u := by
-      intro ps
-      induction ps with
-      | nil => intro vs h u hu; exact h u (by simpa [clipAll] using hu)
-      | cons p ps ih =>
-        intro vs h u hu
-        exact ih (clipPlane p vs)
-          (clipPlane_preserves (BaryOf t) p (fun v0 v1 h0 h1 hc => baryOf_crossing t p v0 v1 h0 h1 hc) vs h)
-          u (by simpa [clipAll] using hu)
-    exact key _ _ hbase v hmem
-
-/-! ### Non-vacuity: a concrete triangle crossing the right plane, over ℚ -/
-
-example : clipTri (α := Rat) ⟨mkVert ⟨0, 0, 0, 1⟩ [1], mkVert ⟨2, 0, 0, 1⟩ [3], mkVert ⟨0, 1, 0, 1⟩ [5]⟩ =
-    [⟨mkVert ⟨0, 0, 0, 1⟩ [1], mkVert ⟨1, 0, 0, 1⟩ [2], mkVert ⟨1, 1/2, 0, 1⟩ [4]⟩,
-     ⟨mkVert ⟨0, 0, 0, 1⟩ [1], mkVert ⟨1, 1/2, 0, 1⟩ [4], mkVert ⟨0, 1, 0, 1⟩ [5]⟩] := by
-  decide +kernel
-
-end Retro.Props.C03
+import Retro.Props.C03.Base
+import Retro.Props.C03.CoverEx
